@@ -77,7 +77,7 @@ def rule_a(ctx):
             except Refuse as e:
                 raise AnalysisError(f"{f.qname} outside the folding language for dofs={dofs!r}: {e}")
             ups = [t for t in fo.trace if t.fn == "self.update"]
-            ctx.ob(R, f.qname, f"{label}: exactly one self.update call", len(ups) == 1, f"calls {[t.fn for t in fo.trace]} (falls through silently)" if not ups else str(ups), f.node)
+            ctx.ob(R, f.qname, f"{label}: exactly one self.update call", len(ups) == 1, f"calls {[t.fn for t in fo.trace]} (falls through silently)" if not ups else str(ups), f.node, evidence=False)
             if len(ups) != 1:
                 continue
             kw = ups[0].kw
